@@ -251,5 +251,12 @@ func TestStreamEth(t *testing.T) {
 		g.Run(nops, i)
 		out.add(w, g.stats)
 	}
+	{
+		// the scripted history of known finding F-C18b
+		w := NewWorld(t, 1)
+		g := &EthGen{w: w, r: &Rng{s: 4242}, stats: map[string]int{}}
+		g.RunSameRootScenario(cases)
+		out.add(w, g.stats)
+	}
 	out.write(t, "eth")
 }
